@@ -22,6 +22,8 @@ def to_tree(o, path=()):
         return {'l': [to_tree(x, path + (id(o),)) for x in o]}
     if isinstance(o, Mapping):
         return {'d': [[k if isinstance(k, str) else repr(k), to_tree(v, path + (id(o),))] for k, v in o.items()]}
+    if isinstance(o, Set):
+        return {'s': sorted(to_tree(x) for x in o if isinstance(x, int))}
     return {'obj': type(o).__name__}
 
 
